@@ -1,4 +1,7 @@
 """C10  I-vectors are posterior means; i-vector EM never decreases the likelihood."""
+import copy
+
+import dask.bag
 import numpy as np
 
 from .. import coqio as cq
@@ -16,7 +19,7 @@ def run(chk):
     for i in range(n_cases):
         ubm, s = fa.gen_ubm(r)
         C, D = ubm.means.shape
-        t = r.choice([1, 2, 3])
+        t = r.choice([1, 2, 3, 5])
         g = gen.nprng(r)
         T = g.normal(size=(C, D, t))
         sigma = np.asarray(ubm.variances) * g.uniform(0.5, 2.0, size=(C, D))
@@ -28,7 +31,17 @@ def run(chk):
                 st.n[-1] = 0.0
                 st.sum_px[-1] = 0.0
                 st.sum_pxx[-1] = 0.0
-        ctx = {"ubm_means": hexlist(ubm.means), "ubm_vars": hexlist(ubm.variances), "T": hexlist(T), "sigma": hexlist(sigma),
+        tiny_comp = (i % 6 == 3) and C >= 2
+        if tiny_comp:          # a component with a small but non-zero (fractional) count in every training statistic
+            kf = r.choice([1e-3, 1e-4, 1e-6])
+            for st in stats:
+                st.n = np.array(st.n, dtype=float)
+                st.sum_px = np.array(st.sum_px, dtype=float)
+                st.sum_pxx = np.array(st.sum_pxx, dtype=float)
+                st.n[-1] *= kf
+                st.sum_px[-1] *= kf
+                st.sum_pxx[-1] *= kf
+        ctx = {"ubm_means": hexlist(ubm.means), "ubm_vars": hexlist(ubm.variances), "T": hexlist(T), "sigma": hexlist(sigma), "tiny_count_component": tiny_comp,
                "shape": [C, D, t], "stats": iv.dump_stats(stats), "zero_count_component": zero_comp}
         # ---- projection: the unique solution of (I + sum_c N_c T_c' S_c^-1 T_c) w = sum_c T_c' S_c^-1 (F_c - N_c m_c)
         st0 = stats[0]
@@ -61,6 +74,9 @@ def run(chk):
             sig1 = np.asarray(probe.sigma)
             if np.all(np.isfinite(sig1)) and np.all(sig1 > 0):
                 floor = float(np.median(sig1))
+        if upd and zero_comp:
+            # a floor ABOVE the current covariance of the component that receives no count: it must be lifted to the floor as well
+            floor = 1.5 * float(np.max(np.asarray(ubm.variances)[-1]))
         seed = r.randint(0, 10 ** 6)
         K = r.choice([1, 2, 4])
         T0 = iv.t0_of(seed, C, D, t)
@@ -81,6 +97,36 @@ def run(chk):
                 want = np.maximum(floor, np.asarray(free.sigma))
                 if np.all(np.isfinite(want)) and not np.allclose(np.asarray(mk.sigma), want, rtol=1e-9, atol=0):
                     chk.fail("first-iteration covariances are not max(floor, unfloored update)", dict(ctx, update_sigma=upd, floor=floor, seed=seed))
+            if k == 1:
+                # exact EM: the new T_c solves the normal equations  T_c A_c = B_c  with  A_c = sum_u N_uc E[w w'],  B_c = sum_u (F_uc - N_uc m_c) E[w]'
+                # (posterior moments under T0 and the UBM covariances, recomputed here); a component without any count keeps T_c = 0
+                mu0, sg0 = np.asarray(ubm.means, dtype=float), np.asarray(ubm.variances, dtype=float)
+                A = np.zeros((C, t, t))
+                B = np.zeros((C, D, t))
+                for st in stats:
+                    nn = np.asarray(st.n, dtype=float)
+                    Fc = np.asarray(st.sum_px, dtype=float) - nn[:, None] * mu0
+                    Pm, bv = np.eye(t), np.zeros(t)
+                    for c in range(C):
+                        Pm = Pm + nn[c] * (T0[c].T / sg0[c]) @ T0[c]
+                        bv = bv + (T0[c].T / sg0[c]) @ Fc[c]
+                    Pi = np.linalg.inv(Pm)
+                    wu = Pi @ bv
+                    E2 = Pi + np.outer(wu, wu)
+                    for c in range(C):
+                        A[c] += nn[c] * E2
+                        B[c] += np.outer(Fc[c], wu)
+                for c in range(C):
+                    Tc = np.asarray(mk.T)[c]
+                    if A[c].any():
+                        lhs = Tc @ A[c]
+                        if not np.allclose(lhs, B[c], rtol=1e-7, atol=1e-9 * (np.abs(B[c]).max() + np.abs(lhs).max() + 1e-300)):
+                            chk.fail("after one training iteration T of component %d does not solve the EM normal equations T_c A_c = B_c (total count %.3g)" % (c, float(sum(np.asarray(q.n)[c] for q in stats))),
+                                     dict(ctx, update_sigma=upd, floor=floor, seed=seed, component=c, T_c=hexlist(Tc), A_c=hexlist(A[c]), B_c=hexlist(B[c])))
+                            ok = False
+                    elif np.any(Tc != 0):
+                        chk.fail("a component without any count gets a non-zero T after one iteration", dict(ctx, update_sigma=upd, floor=floor, seed=seed, component=c))
+                        ok = False
             floor_active = bool(upd and np.any(np.asarray(mk.sigma) <= floor))
             L = iv.marginal(np.asarray(ubm.means), np.asarray(mk.T), np.asarray(mk.sigma), stats)
             traj.append(L)
@@ -90,7 +136,22 @@ def run(chk):
                 ok = False
                 break
             prevL = L
-        chk.count(1, key=("fit", C, D, t, upd, zero_comp))
+        chk.count(1, key=("fit", C, D, t, upd, zero_comp, tiny_comp))
+        if i % 8 == 1:
+            # the same training from a Dask bag (partitions given as lists, and as one-shot generators that every iteration must re-create):
+            # same extractor as from the list, hence the same non-decreasing likelihoods
+            for lazy in (False, True):
+                def bag():
+                    b_ = dask.bag.from_sequence(stats, npartitions=2)
+                    return b_.map_partitions(lambda ch: (copy.copy(x) for x in ch)) if lazy else b_
+                mb = iv.fit_machine(ubm, bag(), t, 3, upd, floor, seed)
+                ml = iv.fit_machine(ubm, stats, t, 3, upd, floor, seed)
+                chk.count(1, key=("fit-from-bag", lazy))
+                if not (np.allclose(mb.T, ml.T, rtol=1e-8, atol=1e-10) and np.allclose(mb.sigma, ml.sigma, rtol=1e-8, atol=1e-12)):
+                    Lb = iv.marginal(np.asarray(ubm.means), np.asarray(mb.T), np.asarray(mb.sigma), stats)
+                    Ll = iv.marginal(np.asarray(ubm.means), np.asarray(ml.T), np.asarray(ml.sigma), stats)
+                    chk.fail("3 training iterations from a Dask bag (%s partitions) give another extractor than from the list: marginal likelihood %.12g vs %.12g"
+                             % ("generator" if lazy else "list", Lb, Ll), dict(ctx, update_sigma=upd, floor=floor, seed=seed, lazy_partitions=lazy))
         if ok:
             sc = max(1.0, float(np.abs(mk.T).max()))
             fterms.append("{| if_m := %s; if_C := %s; if_D := %s; if_t := %s; if_upd := %s; if_floor := %s; if_iters := %s; if_parts := %s; if_rtol := %s; if_atol := %s; if_T := %s; if_sigma := %s |}" % (
@@ -105,5 +166,5 @@ def run(chk):
     chk.partial = ["ivector_monotone_partial: marginal-likelihood monotonicity for dim_t > 1 needs ln det A <= tr A - n (no determinant theory over R installed); "
                    "validated numerically with slogdet after every iteration"]
     return chk.finish(
-        rule="UBMs C,D<=3, dim_t 1-3, fractional counts, every 6th case with a zero-count component, update_sigma on/off, floors 1e-10 or binding; "
+        rule="UBMs C,D<=3, dim_t 1,2,3,5, fractional counts, every 6th case with a zero-count component and every 6th with a component of tiny (1e-3..1e-6) counts, update_sigma on/off, floors 1e-10 or binding; "
              "marginal likelihood computed independently (slogdet) after every iteration; distinct = (project,C,D,t) | (fit,C,D,t,update_sigma,zero-count)")
